@@ -19,8 +19,20 @@ def sh(cmd, **kw):
     return subprocess.run(cmd, shell=True, stdout=subprocess.PIPE, stderr=subprocess.STDOUT, text=True, **kw)
 
 
+WT = "/tmp/sfv_seed_wt"
+
+
 def clean():
-    return sh("git -C /repo status --porcelain --untracked-files=no").stdout.strip() == ""
+    return sh("git -C %s status --porcelain --untracked-files=no" % WT).stdout.strip() == ""
+
+
+def ensure_wt():
+    """A scratch worktree of /repo at its current HEAD; checks run against it through SFV_REPO, /repo is not touched."""
+    if os.path.isdir(WT):
+        sh("git -C /repo worktree remove --force %s" % WT)
+    r = sh("git -C /repo worktree add --detach %s HEAD" % WT)
+    if r.returncode != 0:
+        raise SystemExit(r.stdout)
 
 
 def main():
@@ -36,9 +48,7 @@ def main():
             only = args.pop(0)
         elif a == "--also":
             also = args.pop(0).split(",")
-    if not clean():
-        print("/repo has uncommitted changes; refusing")
-        return 2
+    ensure_wt()
     results_path = os.path.join(SEEDED, "RESULTS.json")
     results = json.load(open(results_path)) if os.path.exists(results_path) else {}
     for d in sorted(os.listdir(SEEDED)):
@@ -49,7 +59,7 @@ def main():
             continue
         meta = json.load(open(os.path.join(p, "meta.json")))
         prop = meta["property"]
-        ap = sh("git -C /repo apply --whitespace=nowarn %s" % os.path.join(p, "patch.diff"))
+        ap = sh("git -C %s apply --whitespace=nowarn %s" % (WT, os.path.join(p, "patch.diff")))
         if ap.returncode != 0:
             print(d, "PATCH DOES NOT APPLY:", ap.stdout[-300:])
             results[d] = {"property": prop, "applies": False}
@@ -58,19 +68,22 @@ def main():
             rec = {"property": prop, "applies": True, "tier": tier, "checks": {}}
             demo = os.path.join(p, "demo.py")
             if os.path.exists(demo):
-                r = sh("cd /repo && PYTHONPATH=/repo timeout 900 /venv/bin/python -W ignore %s" % demo)
+                r = sh("cd %s && PYTHONPATH=%s timeout 1800 /venv/bin/python -W ignore %s" % (WT, WT, demo))
                 rec["demo_exit_with_patch"] = r.returncode
             for c in [prop] + [x for x in also if x != prop]:
                 t0 = time.time()
-                r = sh("cd %s && timeout 3600 ./check %s %s" % (VERIF, c, tier))
+                r = sh("cd %s && SFV_REPO=%s timeout 5400 ./check %s %s" % (VERIF, WT, c, tier))
                 viol = [l for l in r.stdout.split("\n") if l.startswith("VIOLATION")]
                 rec["checks"][c] = {"exit": r.returncode, "violations": viol[:5], "detail": [l for l in r.stdout.split("\n") if l.startswith("  - ")][:4],
                                     "wall_s": round(time.time() - t0, 1)}
                 print(d, c, tier, "exit", r.returncode, "VIOLATION" if viol else "missed", "%.0fs" % (time.time() - t0))
             results[d] = rec
         finally:
-            sh("git -C /repo checkout -- .")
+            sh("git -C %s checkout -- ." % WT)
         json.dump(results, open(results_path, "w"), indent=1)
+    sh("git -C /repo worktree remove --force %s" % WT)
+    # Gen/ may have been regenerated from the scratch worktree: regenerate it from /repo
+    sh("cd %s && ./check C05 quick" % VERIF)
     return 0
 
 
